@@ -54,7 +54,46 @@ func cfgDesc(c world.GWConfig) string {
 type Workload struct {
 	Name string
 	N    func(r *rt.Run) int
-	Run  func(t *testing.T, r *rt.Run, i int, rng *rand.Rand) *GWRun
+	Run  func(t *testing.T, c *rt.Case, i int, rng *rand.Rand) *GWRun
+}
+
+// leakIsViolation is set by the check whose property forbids goroutine leaks (C13, C28).
+var leakIsViolation = ""
+
+// handleLeaks must be called inside the bubble at quiescence after teardown.
+// Goroutines still inside bisquitt code keep the bubble from finishing, so
+// the finding is journaled and the process exits (the driver restarts it).
+func handleLeaks(c *rt.Case, g *GWRun) {
+	if leakIsViolation == "" {
+		// Not this check's subject: a leak would make the bubble panic at its
+		// end, which the driver reports as a crash of this case.
+		return
+	}
+	leaks := bubbleLeaks()
+	if len(leaks) == 0 {
+		return
+	}
+	if leakIsViolation != "" {
+		c.Violation("goroutine-leak|"+leakSite(leaks[0]), fmt.Sprintf("%d goroutine(s) of the session outlive it; first blocked in %s", len(leaks), leakSite(leaks[0])),
+			map[string]interface{}{"stacks": leaks, "witness": g.witness(80)})
+	} else {
+		c.Inconclusive("goroutines of the session outlive it (judged by C13): " + leakSite(leaks[0]))
+	}
+	c.MarkDone()
+	c.R.ExitNow()
+}
+
+func leakSite(stack string) string {
+	for _, l := range strings.Split(stack, "\n") {
+		l = strings.TrimSpace(l)
+		if strings.HasPrefix(l, "github.com/energomonitor/bisquitt/") {
+			if i := strings.LastIndex(l, "("); i > 0 {
+				l = l[:i]
+			}
+			return strings.TrimPrefix(l, "github.com/energomonitor/bisquitt/")
+		}
+	}
+	return "?"
 }
 
 // bubble runs f inside a synctest bubble.
@@ -84,7 +123,7 @@ func runWorkloads(t *testing.T, r *rt.Run, wls []Workload, judge func(g *GWRun) 
 		return fmt.Sprintf("%s#%d", w.Name, k)
 	}, func(t *testing.T, c *rt.Case) {
 		w, k := locate(c.I)
-		g := w.Run(t, r, k, c.Rand())
+		g := w.Run(t, c, k, c.Rand())
 		if g == nil {
 			c.Inconclusive("workload produced no run")
 			return
@@ -176,7 +215,7 @@ var credVariants = []struct {
 }{{nil, nil}, {strp("gwuser"), nil}, {strp("gwuser"), []byte("gwpass")}, {nil, []byte("onlypass")}}
 
 // runConnectSeq runs one lock-step sequence of client packets against a fresh session.
-func runConnectSeq(t *testing.T, seq []sym, auth bool, cred int, connackRC byte, silent bool, gaps []time.Duration) *GWRun {
+func runConnectSeq(t *testing.T, c *rt.Case, seq []sym, auth bool, cred int, connackRC byte, silent bool, gaps []time.Duration) *GWRun {
 	g := &GWRun{}
 	g.Cfg = world.GWConfig{Auth: auth, User: credVariants[cred].u, Password: credVariants[cred].p, Predefined: stdPredefined(), RetryDelay: 10 * time.Second, RetryCount: 2}
 	g.BCfg = world.BrokerCfg{ConnackRC: connackRC, Silent: silent}
@@ -207,8 +246,9 @@ func runConnectSeq(t *testing.T, seq []sym, auth bool, cred int, connackRC byte,
 		w.Tr.Add(0, world.Note, nil, "shutdown")
 		w.Finish()
 		synctest.Wait()
-		w.WaitHarness()
 		g.Evs = w.Tr.Events()
+		handleLeaks(c, g)
+		w.WaitHarness()
 	})
 	g.Items, g.RestOut = g.Session(0)
 	g.NSess = 1
@@ -222,7 +262,7 @@ var wlConnectExhaustive = Workload{
 		n := len(preSyms)
 		return 2 * (n + n*n + n*n*n)
 	},
-	Run: func(t *testing.T, r *rt.Run, i int, rng *rand.Rand) *GWRun {
+	Run: func(t *testing.T, c *rt.Case, i int, rng *rand.Rand) *GWRun {
 		n := len(preSyms)
 		auth := i%2 == 1
 		k := i / 2
@@ -237,7 +277,7 @@ var wlConnectExhaustive = Workload{
 			k -= n + n*n
 			seq = []sym{preSyms[k/(n*n)], preSyms[(k/n)%n], preSyms[k%n]}
 		}
-		return runConnectSeq(t, seq, auth, 2, 0, false, nil)
+		return runConnectSeq(t, c, seq, auth, 2, 0, false, nil)
 	},
 }
 
@@ -245,7 +285,7 @@ var wlConnectExhaustive = Workload{
 var wlConnectRandom = Workload{
 	Name: "connect-random",
 	N:    func(r *rt.Run) int { return r.N(4000, 80000) },
-	Run: func(t *testing.T, r *rt.Run, i int, rng *rand.Rand) *GWRun {
+	Run: func(t *testing.T, c *rt.Case, i int, rng *rand.Rand) *GWRun {
 		auth := rng.Intn(2) == 0
 		var seq []sym
 		all := append(append([]sym{}, preSyms...), extraSyms...)
@@ -311,6 +351,6 @@ var wlConnectRandom = Workload{
 				gaps = append(gaps, []time.Duration{0, time.Second, 4900 * time.Millisecond}[rng.Intn(3)])
 			}
 		}
-		return runConnectSeq(t, seq, auth, rng.Intn(len(credVariants)), rc, silent, gaps)
+		return runConnectSeq(t, c, seq, auth, rng.Intn(len(credVariants)), rc, silent, gaps)
 	},
 }
